@@ -1522,6 +1522,51 @@ theorem told_of_ainv (s : ASys) (h : AInv s) : s.told = true := by
       · left; right; simpa using hc
     · left; left; simpa using hp
 
+/-! ### the expression guard: `calls` finds every call -/
+mutual
+theorem hasCall_of_mem_calls : ∀ (e : DExpr) (t : Option String), t ∈ e.calls → HasCall e t
+  | .leaf, t, h => by simp [DExpr.calls] at h
+  | .node cs, t, h => by
+    simp only [DExpr.calls] at h
+    obtain ⟨e, he, hc⟩ := hasCall_of_mem_callsList cs t h
+    exact HasCall.inNode cs e t he hc
+  | .call t' cs, t, h => by
+    simp only [DExpr.calls, List.mem_cons] at h
+    rcases h with h | h
+    · subst h; exact HasCall.here _ cs
+    · obtain ⟨e, he, hc⟩ := hasCall_of_mem_callsList cs t h
+      exact HasCall.inCall t' cs e t he hc
+theorem hasCall_of_mem_callsList : ∀ (es : List DExpr) (t : Option String), t ∈ callsList es →
+    ∃ e ∈ es, HasCall e t
+  | [], t, h => by simp [callsList] at h
+  | e :: es, t, h => by
+    simp only [callsList, List.mem_append] at h
+    rcases h with h | h
+    · exact ⟨e, by simp, hasCall_of_mem_calls e t h⟩
+    · obtain ⟨e', he', hc⟩ := hasCall_of_mem_callsList es t h
+      exact ⟨e', by simp [he'], hc⟩
+end
+
+theorem mem_callsList_of_mem (es : List DExpr) (e : DExpr) (t : Option String) (he : e ∈ es)
+    (h : t ∈ e.calls) : t ∈ callsList es := by
+  induction es with
+  | nil => simp at he
+  | cons x xs ih =>
+    simp only [callsList, List.mem_append]
+    rcases List.mem_cons.1 he with rfl | he
+    · exact Or.inl h
+    · exact Or.inr (ih he)
+
+theorem mem_calls_of_hasCall (e : DExpr) (t : Option String) (h : HasCall e t) : t ∈ e.calls := by
+  induction h with
+  | here t cs => simp [DExpr.calls]
+  | inCall t' cs e t he _ ih =>
+    simp only [DExpr.calls, List.mem_cons]
+    exact Or.inr (mem_callsList_of_mem cs e t he ih)
+  | inNode cs e t he _ ih =>
+    simp only [DExpr.calls]
+    exact mem_callsList_of_mem cs e t he ih
+
 /-! ### a concrete program for the non-vacuity examples -/
 
 /-- Straight-line program: statement `i` spans bytes `[10 i, 10 i + 5)` of file 0 at depth `i % 2`;
@@ -1540,5 +1585,7 @@ theorem reachable_exec {M W : Type} (p : Prog M W) (m0 : M) (ls : List (Label W)
 
 def demoBp : Bp :=
   { loc := ⟨0, 0, 10⟩, cond := none, hitCond := none, isLog := false, hits := 0, gen := 0 }
+
+def demoAllowed (n : String) : Bool := ["ABS", "MAX", "INT_TO_DINT"].contains n
 
 end TrustVerif.C17
